@@ -216,6 +216,21 @@ def run(E: Engine, rep: Report, tier: str) -> dict:
                     guarded = all(any(l.truth is not None and l.atom is None and l.positive and l.text == path for l in c) for c in dnf)
                     rep.check(guarded, "CONTRA", f"{f.short}|{norm(n)}", "constant index under a non-empty guard", f"`{norm(n)}` is indexed with a constant although the same function treats `{path}` as possibly empty (`{maybe_empty[path]}`): a channel without such entries raises IndexError here", E.where(f, n))
     rep.floor("CONTRA", 2)
+    # SequenceSamples.extend_duration keeps one ChannelSamples per channel: the new samples_list is a comprehension over
+    # the old one without a filter (channels and samples_list are paired by position everywhere)
+    sed_ = E.method(SS, "extend_duration")
+    r_ed = S(E, sed_).ret
+    comps_ = [t for t in sym.subterms(r_ed) if t[0] == "comp" and len(t[3]) == 1 and mentions(t[3][0][0], "samples_list")] if r_ed is not None else []
+    ok_ed = bool(comps_) and all(t[3][0][1] == sym.TRUE for t in comps_)
+    rep.check(ok_ed, "SIB", "SequenceSamples.extend_duration|one-sample-per-channel", "every entry of samples_list is extended (no entry dropped)", f"SequenceSamples.extend_duration filters samples_list ({[sh(t[3][0][1], 60) for t in comps_]}): the list then has fewer entries than `channels`, and channel names are paired with the wrong samples", E.where(sed_))
+    # a channel is empty iff every amplitude and detuning sample is zero (not: iff they sum to zero)
+    ie = [f for f in E.cls(CS).methods.get("is_empty", []) if f.kind != "overload"]
+    if not ie:
+        raise AnalysisError("anchor: ChannelSamples.is_empty not found")
+    r_ie = unobj(S(E, ie[0]).ret)
+    forms = ("np.count_nonzero(Q_a) + np.count_nonzero(Q_d) == 0", "not np.any(Q_a) and not np.any(Q_d)", "not (np.any(Q_a) or np.any(Q_d))", "np.all(Q_a == 0) and np.all(Q_d == 0)")
+    ok_ie = any(is_(r_ie, f_) is not None for f_ in forms)
+    rep.check(ok_ie, "GUARD", "ChannelSamples.is_empty|all-samples-zero", "empty iff no amplitude and no detuning sample is non-zero", f"ChannelSamples.is_empty is `{sh(r_ie, 120)}`: it must say that every sample is zero (a detuning of +d then -d sums to zero but is not empty: the channel's basis would be dropped from the emulated Hamiltonian)", E.where(ie[0]))
     # ------------------------------------------------------------ INPLACE
     # rendering is read-only: `x = <object>.<field>; x -= y` (or |=, +=, &=) on a set/list/dict edits the object the
     # field belongs to -- here the slots of the samples, whose target sets are shared with the schedule
